@@ -28,6 +28,7 @@ import (
 	v2 "github.com/nuts-foundation/nuts-node/network/transport/v2"
 	"github.com/nuts-foundation/nuts-node/pki"
 	"github.com/nuts-foundation/nuts-node/storage"
+	"github.com/nuts-foundation/nuts-node/vcr/revocation"
 	"github.com/nuts-foundation/nuts-node/vdr"
 	"github.com/nuts-foundation/nuts-node/vdr/didnuts/didstore"
 	"github.com/nuts-foundation/sqlite"
@@ -275,6 +276,8 @@ func New(s *simkit.Sim, rc *simkit.RunCtx) *World {
 	storage.SimSetSessionPruneInterval(0)
 	// a task inside storage.Atomically / GetAndDelete is not parked at the session-store seam
 	s.HeldProbes = append(s.HeldProbes, storage.SimSessionMutexHeld)
+	// nor one that refreshes a status list (one refresh at a time per list)
+	s.HeldProbes = append(s.HeldProbes, revocation.SimRefreshMutexHeld)
 	return w
 }
 
